@@ -94,7 +94,7 @@ def GoodAtom (env : Env) (a : Atom) : Prop :=
      -- an atom whose specifier view is not exact (`"3.8" ~= python_version`, ...) is opaque: never merged
      a.exactView = false ∨
      (a.Coherent env ∧ a.spec.Canon ∧ NormGood env a)
-   else StrName a.name)
+   else StrName a.name ∨ a.exactView = false)
 
 def Good (env : Env) : M → Prop
   | .expr a => GoodAtom env a
@@ -386,9 +386,8 @@ theorem GSpec.or_spec_operand (a b g : GSpec) (h : a.or b = some (.spec g)) : g 
       first | exact Or.inl h.symm | exact Or.inr h.symm | exact Or.inl h.2.symm | exact Or.inr h.2.symm
 
 /-- atoms on ordinary variables (string or version) are coherent, canonical, of the right kind -/
-theorem exactView_of_notVersionLike (a : Atom) (h : versionLikeNames.contains a.name = false) :
-    a.exactView = true := by
-  unfold Atom.exactView; rw [h]; simp
+theorem exactView_of_strName (a : Atom) (h : StrName a.name) : a.exactView = true := by
+  unfold Atom.exactView; rw [h.1, h.2.1]; simp
 
 theorem good_ordinary (env : Env) (a : Atom) (ha : GoodAtom env a) (h1 : a.name ≠ "extra")
     (h2 : setNames.contains a.name = false) (hx : a.exactView = true) :
@@ -401,6 +400,7 @@ theorem good_ordinary (env : Env) (a : Atom) (ha : GoodAtom env a) (h1 : a.name 
     obtain ⟨s, hs⟩ := wf_ver_spec a hw hv
     exact ⟨hc.1, hc.2.1, by rw [hs]; exact hv⟩
   · simp only [hv, Bool.false_eq_true, if_false] at hc
+    replace hc := hc.resolve_right (by simp [hx])
     obtain ⟨g, _, hs⟩ := wf_str_spec a hw hc
     exact ⟨str_coherent env a hw hc, by rw [hs]; trivial, by rw [hs]; exact ⟨h1, h2⟩⟩
 
@@ -699,7 +699,8 @@ theorem mergeSingle_ok (env : Env) (he : EnvTotal env) (hF : FromSpecOk env) (hP
                 have := ha.2
                 have h2m : a.name ∉ setNames := by simpa using h2'
                 have hnvm : a.name ∉ versionLikeNames := by simpa using hnv
-                simpa [h1, h2m, hnvm] using this
+                have h3 : StrName a.name ∨ a.exactView = false := by simpa [h1, h2m, hnvm] using this
+                exact h3.resolve_right (by simp [hxa])
               have hsnb : StrName b.name := hn ▸ hsn
               obtain ⟨t, ga, hta, hga, _, hsa⟩ := sem_str_atom env he a ha.1 hsn
               obtain ⟨t', gb, htb, hgb, _, hsb⟩ := sem_str_atom env he b hb.1 hsnb
